@@ -259,6 +259,25 @@ fn run_sub(cx: &mut Ctx, machine: Machine, s: &Sub, rec: &mut Rec) -> Result<(),
     if got_frames > 0 {
         rec.class("crossed-frame-end");
     }
+    // a halted CPU keeps fetching (and being delayed) at the HALT's address: two more halted
+    // cycles, timed like the first
+    if cx.m.cpu.halted && cx.e.verif_cpu().halted && !resynced {
+        for n in 0..2 {
+            mach::single_step(&mut cx.e)?;
+            let c0 = cx.m.bus.contention_total;
+            cx.m.step_group();
+            rec.eval();
+            let want_t = cx.m.bus.t;
+            let got_t = tb.emu_t(&cx.e);
+            if got_t != want_t {
+                return Err(format!(
+                    "{} halted cycle {} after the HALT: emulator stands at T {}, contention model at {} (ULA delay of that cycle: {})",
+                    tag(), n + 2, got_t, want_t, cx.m.bus.contention_total - c0
+                ));
+            }
+        }
+        rec.class("halted-cycles-after-the-halt");
+    }
     Ok(())
 }
 
